@@ -221,6 +221,10 @@ func lazy(c *harness.Ctx) {
 	}
 }
 
+// more scenarios of this package register themselves here (files that do not apply to a module
+// variant are simply not copied into its scratch module)
+var scenarios = map[string]harness.Scenario{"lazymap": lazy}
+
 func TestS1(t *testing.T) {
-	harness.Main(t, map[string]harness.Scenario{"lazymap": lazy, "registry": registry})
+	harness.Main(t, scenarios)
 }
